@@ -8,7 +8,7 @@ from .poly import poly, pstr
 
 
 # ------------------------------------------------------------------------------------------------ AO-1 (C01, C02)
-def ao1(facts, rep, body_path, rule='AO-1'):
+def ao1(facts, rep, body_path, rule='AO-1', first=2, second=3, names=('x', 'y'), floor=1):
     """substitution score is asked for (symbol of x, symbol of y), in that order"""
     rep.rule(rule, 'argument order of the substitution function: every call of MatchFunc::score in the DP receives a value '
                    'derived (data provenance) from the first sequence x as its first symbol and one derived from y as its '
@@ -30,13 +30,14 @@ def ao1(facts, rep, body_path, rule='AO-1'):
         if any(q is None for q in ls):
             rep.bad(rule, key, b.loc(bb), 'a literal is passed as a symbol')
             continue
-        ra, rb = roots[ls[0]['l']] & {2, 3}, roots[ls[1]['l']] & {2, 3}
-        if ra == {2} and rb == {3}:
-            rep.ok(rule, key, b.loc(bb), 'score(symbol of x, symbol of y)')
+        ra, rb = roots[ls[0]['l']] & {first, second}, roots[ls[1]['l']] & {first, second}
+        if ra == {first} and rb == {second}:
+            rep.ok(rule, key, b.loc(bb), 'score(symbol of %s, symbol of %s)' % names)
         else:
             rep.bad(rule, key, b.loc(bb), 'MatchFunc::score is called with symbols derived from parameters %s and %s '
-                                          '(expected: first from x, second from y)' % (sorted(ra), sorted(rb)))
-    rep.floor(rule, 'score call sites', n, 1)
+                                          '(expected: first from %s = parameter %d, second from %s = parameter %d)' % (
+                        sorted(ra), sorted(rb), names[0], first, names[1], second))
+    rep.floor(rule, 'score call sites in %s' % body_path.rsplit('::', 1)[-1], n, floor)
 
 
 # ------------------------------------------------------------------------------------------------ LF-2 (C05)
